@@ -138,9 +138,12 @@ alias Num = Int32
 # Siblings: specs with the SAME namespace, type, alias, annotation and route names as a rich spec but different content (imports,
 # owners of names, field types, alias targets); generated first in the 'after-sibling' history.
 REACH = ('alias-reach', [('cfg.stone', CFG),
-                         ('files.stone', 'namespace files\nimport users\nstruct F\n    "doc :type:`F` :type:`users.Holder`"\n    t users.ThingAlias\n    l List(users.ThingAlias)?\nroute get(F, Void, Void)\n    ":type:`F`"\n'),
-                         ('users.stone', 'namespace users\nimport common\nalias ThingAlias = common.Thing\nstruct Holder\n    h ThingAlias\n'),
-                         ('common.stone', 'namespace common\nstruct Thing\n    "doc :type:`Thing`"\n    x Int32\nunion Kind\n    a\n    b\n')], None)
+                         ('files.stone', 'namespace files\nimport users\nstruct F\n    "doc :type:`F` :type:`users.Holder`"\n    t users.ThingAlias\n    l List(users.ThingAlias)?\n    e users.ExAlias?\n    z users.ZedAlias?\n    m users.MoreAlias?\n'
+                                         '    s users.Str2 = "x"\n    k users.Kind2 = a\nroute get(F, Void, Void)\n    ":type:`F`"\n'),
+                         ('users.stone', 'namespace users\nimport common\nimport extra\nimport zed\nimport more\nalias ThingAlias = common.Thing\nalias ExAlias = extra.Ex\nalias ZedAlias = List(zed.Zd)\nalias MoreAlias = more.Mo\n'
+                                         'alias Str1 = String\nalias Str2 = Str1\nalias Kind1 = common.Kind\nalias Kind2 = Kind1\nstruct Holder\n    h ThingAlias\n'),
+                         ('common.stone', 'namespace common\nstruct Thing\n    "doc :type:`Thing`"\n    x Int32\nunion Kind\n    a\n    b\n'),
+                         ('extra.stone', 'namespace extra\nstruct Ex\n    x Int32\n'), ('zed.stone', 'namespace zed\nstruct Zd\n    x Int32\n'), ('more.stone', 'namespace more\nstruct Mo\n    x Int32\n')], None)
 REACH_SIBLING = [('cfg.stone', CFG),
                  ('files.stone', 'namespace files\nimport users\nimport common\nstruct F\n    "doc :type:`F` :type:`users.Holder`"\n    t users.ThingAlias\n    c common.Thing\n    k common.Kind = a\nstruct Thing\n    y String\nroute get(F, Thing, Void)\n    ":type:`F`"\n'),
                  ('users.stone', 'namespace users\nalias ThingAlias = String\nstruct Holder\n    h ThingAlias\n    i Int32 = 1\n'),
@@ -149,7 +152,7 @@ REACH_SIBLING = [('cfg.stone', CFG),
 
 IDENT_POOL = {
     'callers': ['alpha', 'beta', 'gamma', 'delta'],
-    'namespaces': ['files', 'common', 'annots', 'n0', 'n1', 'n2', 'n3', 'n4', 'na', 'nb'],
+    'namespaces': ['files', 'common', 'annots', 'n0', 'n1', 'n2', 'n3', 'n4', 'na', 'nb', 'users', 'extra', 'zed', 'more'],
     'types': ['Meta', 'FileMeta', 'FolderMeta', 'Plain', 'Deep', 'Deeper', 'Mode', 'Mode2', 'User', 'S0', 'S1', 'S2', 'S3', 'S4', 'Saa', 'Sab', 'Uaa'],
     'annotations': ['OA', 'OB', 'OC', 'OD', 'N1', 'N2', 'N3', 'Note', 'Mark', 'Om1', 'Om2', 'Rb', 'Rh'],
     'routes': ['get', 'put', 'put:2', 'lst', 'r0', 'r1', 'r2', 'r3', 'r4'],
@@ -301,7 +304,7 @@ def run(tier, seed):
     for name, specs, wl in RICH:
         items.append((name, specs, wl, all_seeds, ['fresh', 'after-unrelated', 'after-namesake', 'after-other-options', 'isolated', 'twice']))
     # a pair of specs that share every name but differ in imports, owners and targets: each is generated after the other
-    items.append((REACH[0], REACH[1], None, all_seeds[:3], ['fresh', 'after-sibling', 'after-namesake', 'twice'], REACH_SIBLING))
+    items.append((REACH[0], REACH[1], None, all_seeds, ['fresh', 'after-sibling', 'after-namesake', 'isolated', 'twice'], REACH_SIBLING))
     items.append((REACH[0] + '-sibling', REACH_SIBLING, None, all_seeds[:3], ['fresh', 'after-sibling', 'after-namesake', 'twice'], REACH[1]))
     budget = 60 if tier == 'quick' else 400
     seen = set()
